@@ -127,6 +127,20 @@ func (l *local) addrCase(ip net.IP) {
 	}
 }
 
+// emptyNetAddrs: net.Addr values that hold no address at all.
+func (l *local) emptyNetAddrs() {
+	// net.Addr kinds that hold no address at all: typed nil pointers of the standard kinds (their own methods
+	// accept a nil receiver) - "not an address", so the empty value
+	for name, a := range map[string]net.Addr{"(*net.TCPAddr)(nil)": (*net.TCPAddr)(nil), "(*net.UDPAddr)(nil)": (*net.UDPAddr)(nil), "(*net.IPAddr)(nil)": (*net.IPAddr)(nil), "(*net.UnixAddr)(nil)": (*net.UnixAddr)(nil), "&net.TCPAddr{}": &net.TCPAddr{}, "&net.UDPAddr{}": &net.UDPAddr{}} {
+		var got netip.AddrPort
+		p, v := mon.Catch(func() { got = netutil.NetAddrToAddrPort(a) })
+		l.e++
+		if p || got != (netip.AddrPort{}) {
+			l.viol("netaddr-empty:"+name, fmt.Sprintf("NetAddrToAddrPort(%s) = %v (panic: %v %v), want the empty AddrPort", name, got, p, v), map[string]any{"kind": "empty_netaddr"})
+		}
+	}
+}
+
 type apAddr struct {
 	ip   net.IP
 	zone string
@@ -484,6 +498,8 @@ func TestConv(t *testing.T) {
 			ip = nil
 		}
 		switch rc.Kind {
+		case "empty_netaddr":
+			l.emptyNetAddrs()
 		case "addr":
 			if len(rc.PIP) == len(ip) && len(ip) > 0 {
 				l.addrCase(net.IP(rc.PIP)) // the buffer's previous contents are part of the case
@@ -533,6 +549,7 @@ func TestConv(t *testing.T) {
 			l.netAddrCase(net.IP(a[:]), "eth0", 65535)
 		}
 		r.Count("mapped_prefix_neighbours", int64(len(mn)))
+		l.emptyNetAddrs()
 		l.flush("addr_conversions_ok")
 	}
 	for i, a := range gen.MappedNeighbours() {
